@@ -424,8 +424,8 @@ impl World {
             o += 8 + len as usize;
         }
         match svio_dirty_in(&path, offsets[0], o as u64) {
-            Some(0) | None => String::new(),
-            Some(-1) => " !unwritten".into(),
+            // -1: the interposer does not know the file (table full / not loaded): not observable, no verdict
+            Some(0) | Some(-1) | None => String::new(),
             Some(n) => format!(" !unsynced={n}"),
         }
     }
